@@ -50,7 +50,13 @@ def handleRt (j : Json) : Except String Json := do
         ("wf", Json.bool m.isWellFormed), ("ivprop", Json.bool m.hasIVProperty),
         ("rolesOk", Json.bool (RolesOk m)), ("ivSorts", Json.bool (IVSorts m)),
         ("rstrLinked", Json.bool rstr), ("repsAgree", Json.bool agree),
-        ("scopesHeld", Json.bool (ScopesHeld m d)), ("noDescArg", Json.bool (NoDescArg m))]
+        ("scopesHeld", Json.bool (ScopesHeld m d)), ("noDescArg", Json.bool (NoDescArg m)),
+        ("handleSorts", Json.bool (HandleSorts m)), ("topOk", Json.bool (TopOk m)),
+        ("qeqOnly", Json.bool (QeqOnly m)),
+        ("argsLinked", Json.bool (match m.representatives with | .ok r1 => ArgsLinked m r1 | _ => false)),
+        ("noCargRole", Json.bool (NoCargRole m)), ("oneConstraint", Json.bool (OneConstraint m)),
+        ("noConstrainedLabel", Json.bool (NoConstrainedLabel m)), ("holesOnce", Json.bool (HolesOnce m)),
+        ("quantBody", Json.bool (QuantBody m)), ("quantHead", Json.bool (QuantHead m d))]
       pure (Json.mkObj [("d1", jExcept jDMRS d1), ("m2", jExcept jMRS m2), ("d2", d2), ("hyp", hyp2)])
 
 /-- `{"op":"from_dmrs","d":dmrs,"chosen":[…]}` → `from_dmrs(d)` -/
